@@ -51,7 +51,9 @@ Definition E_OVERFLOW : Z := 3.  (* protoscan.ErrIntOverflow (Uint32 of a varint
 Definition E_NO_IDS : Z := 4.
 Definition E_NO_LATS : Z := 5.
 Definition E_NO_LONS : Z := 6.
-Definition E_INDEX : Z := 7.     (* bounds-checked index failure reported as an error *)
+Definition E_INDEX : Z := 7.     (* stringAt: string table index out of range *)
+Definition E_COLUMNS : Z := 10.  (* errWayColumns / errMemberColumns: parallel columns differ in length *)
+Definition E_PLAIN : Z := 11.    (* plain (non-dense) nodes are not supported *)
 
 (* ---- protoscan scalar accessors on a raw varint v, 0 <= v < 2^64 ---- *)
 Definition unzig (v : Z) : Z := if Z.even v then v / 2 else - ((v + 1) / 2).
@@ -89,9 +91,9 @@ Definition col_next (c : iter) : result (option Z * iter) :=
 Definition it_next (l : list Z) : result (Z * list Z) :=
   match l with [] => Err E_EOF | v :: r => Ok (v, r) end.
 
-(* Outcome of an out-of-range slice/string-table index in decode_data.go.
-   (Go: run-time panic in a worker goroutine.) *)
-Definition oob {A} : result A := Panic.
+(* Outcome of an out-of-range string-table index: stringAt returns an error
+   (fix 7644851; before it, st[i] panicked in the worker goroutine). *)
+Definition oob {A} : result A := Err E_INDEX.
 
 Definition idx {A} (l : list A) (i : Z) : result A :=
   if i <? 0 then oob else match nth_error l (Z.to_nat i) with Some a => Ok a | None => oob end.
@@ -103,5 +105,9 @@ Fixpoint set_nth {A} (l : list A) (n : nat) (f : A -> A) : option (list A) :=
   | a :: r, S k => match set_nth r k f with Some r' => Some (a :: r') | None => None end
   end.
 
+(* if index >= len(s) { return errColumns }; s[index] = ...   (fix a348d0a) *)
 Definition upd {A} (l : list A) (i : nat) (f : A -> A) : result (list A) :=
-  match set_nth l i f with Some l' => Ok l' | None => oob end.
+  match set_nth l i f with Some l' => Ok l' | None => Err E_COLUMNS end.
+(* after the loop: if index != len(s) { return errColumns } *)
+Definition full {A} (l : list A) (i : nat) : result (list A) :=
+  if Nat.eqb i (length l) then Ok l else Err E_COLUMNS.
